@@ -5,6 +5,7 @@
 #ifndef MYTH_TLS_H_
 #define MYTH_TLS_H_
 
+#include "myth/myth_spinlock.h"
 #include "myth/myth.h"
 #include "myth_config.h"
 
@@ -52,6 +53,7 @@ typedef struct myth_tls_key_entry {
 /* the toplevel data structure to allocate unsed keys from */
 typedef struct myth_tls_key_allocator {
   myth_tls_key_entry_t * free;	/* head of free list */
+  myth_spinlock_t lock;		/* serializes alloc/dealloc (a lock-free pop is ABA-prone) */
   myth_tls_key_entry_t keys[myth_tls_n_keys]; /* cells in the free list */
 } myth_tls_key_allocator_t;
 
